@@ -146,7 +146,7 @@ type FaultCase struct {
 	V1, V2  Version `json:"-"`
 	Files   int     `json:"files"`
 	K       int64   `json:"fault_at_operation"` // 1-based index among the operations of the second Store
-	Fault   string  `json:"fault"`              // error | short | revoke
+	Fault   string  `json:"fault"`              // error | short | revoke | silent (a write persists half yet reports success)
 	// AssertHashFault disables the exclusion of known finding C16-R19 (set by its replay only)
 	AssertHashFault bool `json:"assert_hash_fault,omitempty"`
 }
@@ -210,6 +210,8 @@ func checkFault(t ev.T, test string, c FaultCase) (skipped string) {
 			return &fsx.Fault{Kind: "short"}
 		case "revoke":
 			return &fsx.Fault{Kind: "revoke"}
+		case "silent":
+			return &fsx.Fault{Kind: "silent"}
 		}
 		return &fsx.Fault{Kind: "error"}
 	}
@@ -238,8 +240,13 @@ func checkFault(t ev.T, test string, c FaultCase) (skipped string) {
 	if h == nil {
 		return "fault point beyond the end of this run"
 	}
-	if c.Fault == "short" && !(h.Kind == "write" || h.Kind == "writestring" || h.Kind == "writeat") {
+	if (c.Fault == "short" || c.Fault == "silent") && !(h.Kind == "write" || h.Kind == "writestring" || h.Kind == "writeat") {
 		return "short write on a non-write operation"
+	}
+	// a write that silently loses data is only in scope where the library claims to verify: the hash-verified transfer
+	// of the package into the remote entry (anywhere else nothing could notice it)
+	if c.Fault == "silent" && (!strings.HasPrefix(h.Path, e.remote+string(filepath.Separator)) || strings.HasSuffix(h.Path, ".hash") || strings.HasPrefix(h.Path, e.lockDir())) {
+		return "silent data loss outside the verified transfer"
 	}
 	// known finding C16-R19: the mutable cache trusts a stale <package>.hash side file
 	if c.Cache == "mutable" && c.Fault != "revoke" && isHashSideFile(h, e.remote) && !c.AssertHashFault {
@@ -297,7 +304,7 @@ func TestFaultEnumeration(t *testing.T) {
 			total := measureStore(backend, cache, 3)
 			ev.MetricMax("operations-of-a-store/"+cache+"/"+backend, float64(total))
 			for k := int64(1); k <= total; k++ {
-				for _, f := range []string{"error", "short", "revoke"} {
+				for _, f := range []string{"error", "short", "revoke", "silent"} {
 					i++
 					if i%shards != shard {
 						continue
